@@ -1813,6 +1813,8 @@ class Tensor:
                         "mask": placeholder_mutant_view.creator.where,
                     },
                 )
+            # the masking op must not alter the flag of the in-place target
+            placeholder_mutant_view._constant = inplace_target._constant
 
         # Connect public base tensor to placeholder graph via the mutated placeholder
         # tensor `out`.
